@@ -88,6 +88,11 @@ THEOREMS = [
        "Result.X (full recording): what X_T[i,k] / X_sigma[i,k] read"),
     _T("adm_of_trajAdm", "the monitored trajectory hypothesis follows from C06's run invariant TrajAdm (itself conditional on the "
        "stability condition and the monitored per-step side condition)"),
+    _T("adm_uncoupled", "the monitored trajectory hypothesis is a THEOREM for thermally uncoupled vials (k_int·A = 0, any start "
+       "temperature inside C06's stability range; C06.trajAdm_uncoupled): for these runs every theorem above marked "
+       "full-under-monitored-hypothesis holds with nothing monitored"),
+    _T("adm_below_liquidus", "the monitored trajectory hypothesis is a THEOREM for a process that starts at or below the liquidus "
+       "(C06.Stable with hi = T_eq_l, static inequality StaticSide; C06.trajAdm_below_liquidus)"),
     _T("hyp_jump_of_valid", "the hypothesis 'positive initial ice' holds for every physically valid constant set (both formulations)"),
     _T("nonvacuous", "hypotheses are satisfiable (a concrete run that nucleates and crosses the threshold)", "nonvacuity"),
 ]
